@@ -1,5 +1,6 @@
 // govc:pkg condition
 // govc:bound |text| <= 5, |pattern| <= 5 over the alphabet {'%', '_', 'a', 'b'} (exhaustive: 1365 x 1365 pairs)
+// govc:also C06 C12 C17
 // Bounded stand-in (NOT a proof): the real matcher matchesLikePattern against the recursive definition of LIKE from the
 // property statement.
 package condition
